@@ -499,11 +499,12 @@ func checkPacing(w *world) (string, error) {
 			}
 			touched := false
 			for _, u := range writes[:p.NWrites] {
-				if u.ID == id && u.At >= c.Start {
+				// By revision, not by time: a user write newer than the version the
+				// call worked on (it may predate the call - the round's snapshot is
+				// older than the call) means the result may have been dropped as stale
+				// or the change may already have cleared the retry.
+				if u.ID == id && (u.Rev > c.Rev || u.At >= c.Start) {
 					touched = true
-					if u.At <= c.End {
-						ambiguous = true // a write during the call: its result may or may not have been dropped
-					}
 				}
 			}
 			if touched {
